@@ -18,6 +18,7 @@ import (
 	"math/big"
 	"strings"
 	"sync"
+	"sync/atomic"
 	"testing"
 	"time"
 
@@ -34,7 +35,10 @@ import (
 
 const prop = "C10"
 
-var watchdog = 60 * time.Second
+var (
+	watchdog          = 60 * time.Second
+	watchdogAfterHang = 15 * time.Second
+)
 
 // Case of the protocol unit.
 type Case struct {
@@ -328,21 +332,28 @@ func memberSizes(in circuit.IOArg) []int {
 }
 
 var (
-	hangMu    sync.Mutex
-	hangCache = map[string]netResult{}
+	hangMu        sync.Mutex
+	hangCache     = map[string]netResult{}
+	hangConfirmed atomic.Bool
 )
 
 // settle turns a network result into an outcome; it implements the retry
 // rules: port collisions are retried, a watchdog hit is a violation only if
 // the same case hangs again on two re-runs.
-func settle(key string, sched Sched, exec func() netResult) (netResult, *ev.Outcome) {
+func settle(key string, sched Sched, exec func(budget time.Duration) netResult) (netResult, *ev.Outcome) {
 	col := ev.Get(prop)
 	hangMu.Lock()
 	r, cached := hangCache[key]
 	hangMu.Unlock()
+	budget, reruns := watchdog, 2
+	if hangConfirmed.Load() {
+		// A hang has already been established in this process with the
+		// full budget; cases tried while shrinking it get a shorter one.
+		budget, reruns = watchdogAfterHang, 1
+	}
 	if !cached {
 		for attempt := 0; attempt < 4; attempt++ {
-			r = exec()
+			r = exec(budget)
 			if r.kind != "infra" || r.msg == "malformed case" {
 				break
 			}
@@ -354,8 +365,8 @@ func settle(key string, sched Sched, exec func() netResult) (netResult, *ev.Outc
 		return r, &ev.Outcome{Skip: "infrastructure: " + errClass(r.msg)}
 	case "timeout":
 		if !cached {
-			for i := 0; i < 2; i++ {
-				again := exec()
+			for i := 0; i < reruns; i++ {
+				again := exec(budget)
 				if again.kind != "timeout" {
 					col.Count("watchdog-hit-not-reproduced", 1)
 					col.Note("a network hit the %v watchdog once and completed on re-execution (skipped): %s; schedule: %s",
@@ -366,9 +377,10 @@ func settle(key string, sched Sched, exec func() netResult) (netResult, *ev.Outc
 			hangMu.Lock()
 			hangCache[key] = r
 			hangMu.Unlock()
+			hangConfirmed.Store(true)
 		}
-		o := ev.Fail(r.sig, "%s (3 of 3 executions of the case hit the watchdog)\nschedule: %s",
-			r.msg, sched)
+		o := ev.Fail(r.sig, "%s (every execution of the case hit the watchdog: %d of %d)\nschedule: %s",
+			r.msg, reruns+1, reruns+1, sched)
 		return r, &o
 	case "fail":
 		o := ev.Fail(r.sig, "%s\nschedule: %s", r.msg, sched)
@@ -425,14 +437,10 @@ func run(cs Case) ev.Outcome {
 	for i := range sizes {
 		sizes[i] = memberSizes(circ.Inputs[i])
 	}
-	var mu sync.Mutex
 	var outs [][]*big.Int
-	exec := func() netResult {
-		mu.Lock()
-		outs = make([][]*big.Int, n)
-		mu.Unlock()
+	exec := func(budget time.Duration) netResult {
 		res := make([][]*big.Int, n)
-		r := runNet(n, cs.Sched, sizes, watchdog, func(p int, nw *gmw.Network) (string, error) {
+		r := runNet(n, cs.Sched, sizes, budget, func(p int, nw *gmw.Network) (string, error) {
 			got, err := nw.Run(new(big.Int).Set(c.inputs[p]), circ, false)
 			if err != nil {
 				return "run/error/" + errClass(err.Error()), fmt.Errorf("Run: %v", err)
@@ -445,9 +453,7 @@ func run(cs Case) ev.Outcome {
 			return "", nil
 		})
 		if r.kind == "ok" {
-			mu.Lock()
 			outs = res
-			mu.Unlock()
 		}
 		if r.kind == "fail" || r.kind == "timeout" {
 			r.msg += fmt.Sprintf("\nAND batches per level %v\n%s", sh.batches, describe())
